@@ -158,6 +158,31 @@ def family_b(ck, n, jn, closing, runs, rnd, variant):
     def bad(what, key, exp, obs):
         ck.disagree(key='Path/' + key, site=site, what='%s (joints=%s closing=%s)' % (what, jn, closing),
                     case={'family': 'B', 'n': n, 'jn': jn, 'closing': closing, 'path': repr(path)}, expected=exp, observed=obs, driver='familyB')
+
+    def coherent(path, segs, tag):
+        size = max(abs(z) for s in segs for z in (s.start, s.end)) + 1
+        if not (abs(path.point(0) - segs[0].start) <= 1e-12 * size) or not (abs(path.point(1) - segs[-1].end) <= 1e-12 * size) \
+                or path.start != segs[0].start or path.end != segs[-1].end:
+            bad('point(0)/point(1)/start/end', 'endpoints' + tag, [segs[0].start, segs[-1].end], [path.point(0), path.point(1), path.start, path.end])
+            return False
+        lens = [s.length() for s in segs]
+        tot = sum(lens)
+        cum = [sum(lens[:i]) / tot for i in range(n + 1)]
+        Ts = [0, 1, 0.5, 0.123, 0.999] + [cum[i] for i in range(1, n)] + [min(1, cum[i] + 1e-7) for i in range(1, n)]
+        for T in Ts:
+            try:
+                k, t = path.T2t(T)
+                pt = path.point(T)
+                own = path[k].point(t)
+                back = path.t2T(k, t)
+            except Exception as e:      # noqa
+                bad('T2t/point raised %r at T=%r' % (e, T), 'T2t/raises-' + type(e).__name__ + tag, 'value', repr(e))
+                return False
+            if not (-1e-12 <= t <= 1 + 1e-12) or not (abs(own - pt) <= 1e-8 * size) or not (abs(back - T) <= 1e-9) or not (cum[k] - 1e-9 <= T <= cum[k + 1] + 1e-9):
+                bad('T=%r: T2t=%r point=%r own=%r t2T=%r occupancy=[%r,%r]' % (T, (k, t), pt, own, back, cum[k], cum[k + 1]),
+                    'T2t/incoherent' + tag, 'coherent', [k, t, repr(pt), repr(own), back])
+                return False
+        return True
     cont = all(jn)
     if path.iscontinuous() != cont:
         bad('iscontinuous', 'iscontinuous', cont, path.iscontinuous())
@@ -171,27 +196,33 @@ def family_b(ck, n, jn, closing, runs, rnd, variant):
     for s1, s2 in zip(subs, subs[1:]):
         if s1.end == s2.start:
             bad('subpaths not maximal', 'continuous_subpaths/maximal', 'distinct', 'joined')
-    size = max(abs(z) for s in segs for z in (s.start, s.end)) + 1
-    if not (abs(path.point(0) - segs[0].start) <= 1e-12 * size) or not (abs(path.point(1) - segs[-1].end) <= 1e-12 * size) \
-            or path.start != segs[0].start or path.end != segs[-1].end:
-        bad('point(0)/point(1)/start/end', 'endpoints', [segs[0].start, segs[-1].end], [path.point(0), path.point(1)])
-    lens = [s.length() for s in segs]
-    tot = sum(lens)
-    cum = [sum(lens[:i]) / tot for i in range(n + 1)]
-    Ts = [0, 1, 0.5, 0.123, 0.999] + [cum[i] for i in range(1, n)] + [min(1, cum[i] + 1e-7) for i in range(1, n)]
-    for T in Ts:
+    if not coherent(path, segs, ''):
+        return
+    # the same segment list reached through a history: measured with other first / last segments, which are then replaced through negative indices
+    decoy = lambda sg: sp.Line(sg.start + (2 - 3j), sg.end + (1 + 5j))
+    hist = sp.Path(*([decoy(segs[0])] + segs[1:-1] + [decoy(segs[-1])])) if n >= 2 else sp.Path(decoy(segs[0]))
+    try:
+        hist.length(), hist.start, hist.end, hist.point(0.3)
+        hist[-1] = segs[-1]
+        hist.length(), hist.start, hist.end
+        hist[-n] = segs[0]
+    except Exception as e:      # noqa
+        bad('item assignment with a negative index raised %r' % e, 'setitem-negative-index/raises', 'ok', repr(e))
+        return
+    if list(hist) != segs or (cont and hist.isclosed() != bool(closing)) or not coherent(hist, segs, '/after-negative-index-assignment'):
+        if list(hist) != segs:
+            bad('segments after negative-index assignment differ', 'setitem-negative-index/segments', 'segs', repr(hist))
+        elif cont and hist.isclosed() != bool(closing):
+            bad('isclosed after negative-index assignment', 'isclosed/after-negative-index-assignment', closing, hist.isclosed())
+        return
+    # a derived path: measured, then scaled anisotropically (the fractions change with the orientation of the segments)
+    if not any(isinstance(sg, sp.Arc) for sg in segs):
         try:
-            k, t = path.T2t(T)
-            pt = path.point(T)
-            own = path[k].point(t)
-            back = path.t2T(k, t)
+            der = path.scaled(2, 0.5)
         except Exception as e:      # noqa
-            bad('T2t/point raised %r at T=%r' % (e, T), 'T2t/raises-' + type(e).__name__, 'value', repr(e))
+            bad('scaled(2, 0.5) raised %r' % e, 'scaled/raises', 'path', repr(e))
             return
-        if not (-1e-12 <= t <= 1 + 1e-12) or not (abs(own - pt) <= 1e-8 * size) or not (abs(back - T) <= 1e-9) or not (cum[k] - 1e-9 <= T <= cum[k + 1] + 1e-9):
-            bad('T=%r: T2t=%r point=%r own=%r t2T=%r occupancy=[%r,%r]' % (T, (k, t), pt, own, back, cum[k], cum[k + 1]),
-                'T2t/incoherent', 'coherent', [k, t, repr(pt), repr(own), back])
-            return
+        coherent(der, [type(sg)(*sg.bpoints()) for sg in der], '/scaled-copy-of-a-measured-path')
 
 
 def run(ck):
